@@ -1,6 +1,7 @@
 // extract: regenerates lean/ElysModel/Gen/Handlers.lean from the Go source of ${VERIF_REPO:-/repo}.
 //
-// For every method of every msgServer / MsgServer implementation under x/*/keeper it records the
+// For every method of each module's generated MsgServer interface, as implemented by the msgServer /
+// MsgServer type under x/*/keeper (declared on it or promoted from the embedded Keeper), it records the
 // module, the method, the request message type, whether the generated message struct has a field
 // `Authority`, which message field the handler compares with the keeper's authority, whether that
 // comparison guards an error return BEFORE the first statement that can write state, and which
@@ -97,25 +98,63 @@ func main() {
 			fail(fmt.Sprintf("package %s does not type-check: %v", p.PkgPath, p.Errors[0]))
 		}
 		mod := strings.TrimSuffix(strings.TrimPrefix(p.PkgPath, elys+"/x/"), "/keeper")
+		// the module's MsgServer interface (generated, x/<mod>/types) …
+		var iface *types.Interface
+		for _, imp := range p.Types.Imports() {
+			if imp.Path() == elys+"/x/"+mod+"/types" {
+				if o := imp.Scope().Lookup("MsgServer"); o != nil {
+					iface, _ = o.Type().Underlying().(*types.Interface)
+				}
+			}
+		}
+		if iface == nil || iface.NumMethods() == 0 {
+			continue // a module without messages
+		}
+		// … its implementations in the keeper package (msgServer / MsgServer) …
+		decls := map[*types.Func]*ast.FuncDecl{}
 		for _, f := range p.Syntax {
-			fname := p.Fset.Position(f.Pos()).Filename
-			if strings.HasSuffix(fname, "_test.go") {
+			for _, d := range f.Decls {
+				if fd, ok := d.(*ast.FuncDecl); ok && fd.Recv != nil && fd.Body != nil {
+					if fo, ok := p.TypesInfo.Defs[fd.Name].(*types.Func); ok {
+						decls[fo] = fd
+					}
+				}
+			}
+		}
+		nImpl := 0
+		names := p.Types.Scope().Names()
+		for _, tn := range names {
+			o, ok := p.Types.Scope().Lookup(tn).(*types.TypeName)
+			if !ok || !strings.EqualFold(tn, "msgServer") {
 				continue
 			}
-			for _, d := range f.Decls {
-				fd, ok := d.(*ast.FuncDecl)
-				if !ok || fd.Recv == nil || fd.Body == nil || !fd.Name.IsExported() || len(fd.Recv.List) != 1 {
-					continue
+			pt := types.NewPointer(o.Type())
+			if !types.Implements(pt, iface) {
+				continue
+			}
+			nImpl++
+			// … and, per interface method, the function that really runs (declared on the server type or
+			// promoted from the embedded Keeper)
+			for i := 0; i < iface.NumMethods(); i++ {
+				mo, _, _ := types.LookupFieldOrMethod(pt, true, p.Types, iface.Method(i).Name())
+				fo, _ := mo.(*types.Func)
+				fd := decls[fo]
+				if fo == nil || fd == nil {
+					fail(fmt.Sprintf("%s.%s: the implementing function is not declared in %s", mod, iface.Method(i).Name(), p.PkgPath))
 				}
 				h, ok := analyse(p, fd, mod, pureSeen)
 				if !ok {
-					continue
+					fail(fmt.Sprintf("%s.%s: no request parameter of a message type", mod, fd.Name.Name))
 				}
+				fname := p.Fset.Position(fd.Pos()).Filename
 				rel, _ := filepath.Rel(repo, fname)
 				h.File, h.Line = rel, p.Fset.Position(fd.Pos()).Line
 				h.SignerField = signers[mod+"."+h.MsgType]
 				hs = append(hs, h)
 			}
+		}
+		if nImpl == 0 {
+			fail("no msgServer implementation of " + mod + "'s MsgServer interface in " + p.PkgPath)
 		}
 	}
 	sort.Slice(hs, func(i, j int) bool {
@@ -146,13 +185,6 @@ func fail(s string) {
 	os.Exit(1)
 }
 
-func deref(t types.Type) types.Type {
-	if p, ok := t.(*types.Pointer); ok {
-		return p.Elem()
-	}
-	return t
-}
-
 // analyse returns the handler record for fd if fd is a method of a msgServer-shaped receiver that
 // takes a pointer to a message struct.
 func analyse(p *packages.Package, fd *ast.FuncDecl, mod string, pureSeen map[string]bool) (handler, bool) {
@@ -162,10 +194,6 @@ func analyse(p *packages.Package, fd *ast.FuncDecl, mod string, pureSeen map[str
 		return handler{}, false
 	}
 	sig := fobj.Type().(*types.Signature)
-	rn, ok := deref(sig.Recv().Type()).(*types.Named)
-	if !ok || !strings.EqualFold(rn.Obj().Name(), "msgServer") {
-		return handler{}, false
-	}
 	// the request parameter: a pointer to a named struct declared in an elys x/<m>/types package
 	var req *types.Var
 	var reqStruct *types.Struct
